@@ -1,7 +1,7 @@
 SPECIFICATION TraceSpec
 CONSTANTS Routers <- AllRouters
           SyncRouters <- AllRouters
-          Gen = {"g1", "g2"}
+          Gen = {"g1", "g2", "ghi"}
           Bad = {"bad"}
           Shape <- ShapeAny
           D = 100
